@@ -64,3 +64,47 @@ Example C04_witness :
   | _ => False
   end.
 Proof. vm_compute. repeat split; reflexivity. Qed.
+
+(* ---------- tree level: ModifiedFiles::rollback undoes apply_one_file_patch, renames included ---------- *)
+From RQ Require Import Parser Quilt ParserWf TreeRollback.
+
+(* a file patch that does not rename: after the rollback every file in memory is as it was loaded *)
+Theorem C04_tree_plain :
+  forall fs st index pn rev F fp ok st',
+  pf_rename fp = false -> good_fp fp ->
+  (forall k m, ov_get k (a_files st) = Some m -> small_m m) ->
+  (forall k f, fs_read fs (normalize k) = inl f -> zlen (split_lines (f_data f)) < isize_max)%Z ->
+  apply_one_file_patch fs st index pn rev F fp = ROk (ok, st') ->
+  exists s ov1 file,
+    a_applied st' = s :: a_applied st /\
+    get_or_load fs (a_files st) (st_target s) = ROk (file, ov1) /\
+    exists ov2, ov_rollback (a_files st') s = ROk (ov2, file) /\ ov_equiv ov2 ov1.
+Proof. exact rollback_one_plain. Qed.
+Print Assumptions C04_tree_plain.
+
+(* a renaming file patch: refused (nothing recorded, both files as loaded) or applied and then undone
+   exactly - content, existed/absent status and permissions of BOTH files - also when the new name is an
+   existing empty file, when the old file does not exist, and when old and new name coincide *)
+Theorem C04_tree_rename :
+  forall fs st index pn rev F fp ok st',
+  pf_rename fp = true -> good_fp fp ->
+  (forall k m, ov_get k (a_files st) = Some m -> small_m m /\ absent_empty m) ->
+  (forall k f, fs_read fs (normalize k) = inl f -> zlen (split_lines (f_data f)) < isize_max)%Z ->
+  apply_one_file_patch fs st index pn rev F fp = ROk (ok, st') ->
+  (a_applied st' = a_applied st /\ ok = false /\
+   exists target newname file ov1 newfile ov3,
+     get_or_load fs (a_files st) target = ROk (file, ov1) /\
+     get_or_load fs ov1 newname = ROk (newfile, ov3) /\ ov_equiv (a_files st') ov3) \/
+  (exists s file ov1 newfile ov3,
+     a_applied st' = s :: a_applied st /\
+     get_or_load fs (a_files st) (st_target s) = ROk (file, ov1) /\
+     get_or_load fs ov1 (st_final s) = ROk (newfile, ov3) /\
+     exists ov4 back, ov_rollback (a_files st') s = ROk (ov4, back) /\ ov_equiv ov4 ov3 /\ back = file).
+Proof. exact rollback_one_rename. Qed.
+Print Assumptions C04_tree_rename.
+
+(* every file patch of a patch the parser accepts is well-formed in the sense used above *)
+Theorem C04_parser_output_good :
+  forall input strip wh p, parse_patch input strip wh = Ok (Parsed p) -> Forall parsed_ok (pp_fps p).
+Proof. exact parse_patch_good. Qed.
+Print Assumptions C04_parser_output_good.
